@@ -29,7 +29,12 @@ LEVEL_TEXT = ("Proof, for every cell text, category table, chunking and validati
               "accumulate correctly across any chunking), numeric_bool_transform accepts exactly the documented spellings "
               "(stated over the literal table regenerated from the source), the validation-mode table of transform_int/float, "
               "fixed_string_transform keeps the first N bytes, parse_timestamp_bytes yields the UTC POSIX time of every accepted "
-              "layout including written offsets, and all companion columns stay as long as the main column.")
+              "layout including written offsets, and all companion columns stay as long as the main column. Composition with "
+              "C05 (Props/C0506.lean, namespace Props.C05): every importer is an append homomorphism over cell blocks "
+              "(importer_append_homomorphism), the CSV driver feeds each importer exactly consecutive blocks of its column "
+              "(staging_column_encodes ties C05's per-call guarantee to this property's Encodes), hence for any schema, "
+              "chunk_row_size and regrowth the public entry point stores typedSpec(kind, whole column) in every main and "
+              "companion field (read_csv_typed_eq_spec, typed_companions_aligned).")
 LEVEL_NOTE = ("Parameters, not theorems: the text-to-number parsers (Python int()/float(), numpy astype; validation_mode_table holds "
               "for every parser that rejects blank text) and datetime/timezone (CPython's _ymd2ord is mirrored and proved equal to "
               "plain day counting; int() on bytes is modelled executably and compared exhaustively on short texts). The timestamp "
@@ -38,7 +43,11 @@ LEVEL_NOTE = ("Parameters, not theorems: the text-to-number parsers (Python int(
               "by the differential run, not verified against the Python text. Theorems are about the code with fixes D27 (C05), D28, "
               "D29, NC06a, NC06b, NC06c, NC06e, NC06f applied. NC06d (text that is no category, in a categorical column without "
               "free text, is stored as 0) is recorded as found: categorical_exact_match states the stored 0 outright, the "
-              "property-level statement is categorical_property_partial (every cell is a key), witness in Witness/C06.lean.")
+              "property-level statement is categorical_property_partial (every cell is a key), witness in Witness/C06.lean. "
+              "The composed theorem read_csv_typed_eq_spec requires every selected cell to be acceptable to its importer; for "
+              "rejected cells (strict / allow_empty, impossible dates) read_csv_typed_raises_partial proves that import_part raises "
+              "on any block that holds one; the lift through the driver loop is not proved (error classes are compared by the "
+              "csv_typed correspondence).")
 RULE = ("corpus (witnesses of D28, D29, NC06a-f) first; exhaustive: every byte string up to length 3 (quick) / 4 (thorough) over the "
         "bool literal alphabet {t,r,u,e,f,a,l,s,y,n,o,0,1,blank,x} plus all case variants of the accepted spellings, in the three "
         "modes; every subset (size <= 3) of the key pool {'', a, ab, b, ba, abc} against all pool members, strict prefixes/suffixes "
@@ -46,7 +55,10 @@ RULE = ("corpus (witnesses of D28, D29, NC06a-f) first; exhaustive: every byte s
         "strings of length 0..4 against N = 1..3; every integer text of a 45-word grammar (blanks, signs, underscores, exponents, "
         "out of range, empty, garbage) x 3 modes x 8 integer dtypes; every timestamp layout x boundary dates x offsets; then seeded "
         "random columns (up to 40 rows, random chunkings with empty chunks, tables up to 600 key bytes, UTF-8 keys) and CSV-level "
-        "cases through the JSON schema loader. Non-trivial = at least two chunks or an unmatched/invalid/truncated cell; distinct "
+        "cases through the JSON schema loader; csv_typed (shared with checks/harness/c05.py): 160 (quick) / 4000 (thorough) "
+        "mixed typed schemas through the real read_csv_with_schema_dict / read_csv with the smallest supported chunk_row_size "
+        "values (typed columns cross many kernel calls and value-buffer regrowths; categorical cells that are no category "
+        "included), compared with the composed model (CSV driver + importer models) and this oracle. Non-trivial = at least two chunks or an unmatched/invalid/truncated cell; distinct "
         "= distinct case dict.")
 ASSUMPTIONS = ["Python int()/float(), numpy astype(str->number) and datetime/timezone arithmetic are parameters of the theorems "
                "(compared on generated texts, int() and _ymd2ord also modelled)",
